@@ -1,11 +1,12 @@
 (* Property C02 - only authorised, well-formed transactions move coins, exactly as the rules say.
    The rules are Spec/Rules.v (preconditions and effects in exact arithmetic).  Statements only. *)
 From Virel Require Import Lib.Config Lib.U64 Lib.AMap Model.Emission Model.Ledger Model.Node Spec.Rules
-  Proofs.Conservation Proofs.Pointwise Proofs.Refine Proofs.Refine2 Proofs.Refine2W Proofs.StakedSum Proofs.NodeBasics
+  Proofs.Conservation Proofs.Pointwise Proofs.Emission Proofs.Refine Proofs.Refine2 Proofs.Refine2W Proofs.Refine3 Proofs.Refine4
+  Proofs.StakedSum Proofs.NodeBasics
   Gen.Params.
 Open Scope N_scope.
 
-(* FULL STATEMENT: for every kind, whenever the code applies a stateless-valid transaction, the rules admit it and
+(* FULL STATEMENT: for every kind, whenever the code applies a stateless-valid transaction, the rules accept it and
    prescribe the same ledger (accounts, delegate records as sets of funds, staked total). *)
 Definition C02_full : Prop := forall cfg team_key l t h bh l1,
   total_bal l < two64 -> wf_tx cfg t ->
@@ -132,6 +133,76 @@ Theorem C02_refused_by_rules_refused_by_code : forall cfg team_key l t h bh,
   forall l1, apply_tx cfg l t h bh (h - 1) <> Ok l1.
 Proof. exact refused_by_rules_refused_by_code. Qed.
 Print Assumptions C02_refused_by_rules_refused_by_code.
+
+(* ---- the staker reward: ApplyPosReward against the rule.  Every fund gets floor(floor(amount * reward / 100) * 99 /
+   pool total) (no 64-bit truncation can occur), the remainder goes to the pool owner's fund (created with unlock
+   height 0 when absent); same delegate table (as a list), same staked total; accounts untouched by both. ---- *)
+Theorem C02_pos_reward_refines : forall l bh o l1,
+  SInv l -> o_amt o < two64 ->
+  apply_pos_reward l bh o = Ok l1 ->
+  let '(c, ls) := spec_pos_reward l bh (o_extra o) (o_amt o) in
+  c = 0 /\ accts l1 = accts ls /\ dlgs l1 = dlgs ls /\ staked l1 = staked ls.
+Proof. exact pos_reward_refines. Qed.
+Print Assumptions C02_pos_reward_refines.
+
+(* ---- blocks: ApplyBlockToState against the block rule (lottery result, transactions in order with accumulated
+   fees, coinbase split, staker reward).
+   [tx_side cfg team_key h t] = wf_tx cfg t, ver_ok t = true, prevalidate_tx cfg team_key t h = Ok tt.
+   [ctr_ok l K] = every incoming-transfer counter and nonce of l is at least K below 2^64;
+   [txs_ctr txs] = sum over the transactions of (tx_ctr t + 1).  cfg_ok_emission: see C01_cfg_ok_*. ---- *)
+Theorem C02_block_refines : forall cfg genesis_addr team_key,
+  cfg_ok_fee cfg = true -> cfg_ok_emission cfg = true ->
+  forall l b l1,
+  total_bal l + reward cfg (lb_height b) <= max_supply cfg ->
+  Forall (tx_side cfg team_key (lb_height b)) (lb_txs b) -> SInv l ->
+  ctr_ok l (txs_ctr (lb_txs b) + 4) ->
+  lb_height b - 1 + unlock_time cfg < two64 ->
+  apply_block cfg genesis_addr l b (lb_height b - 1) = Ok l1 ->
+  let '(c, ls) := spec_block cfg genesis_addr team_key l b in
+  c = 0 /\ same_accounts l1 ls /\ dlgs l1 = dlgs ls /\ staked l1 = staked ls.
+Proof. exact block_refines_same. Qed.
+Print Assumptions C02_block_refines.
+
+Theorem C02_block_refused_by_rules_refused_by_code : forall cfg genesis_addr team_key,
+  cfg_ok_fee cfg = true -> cfg_ok_emission cfg = true ->
+  forall l b,
+  total_bal l + reward cfg (lb_height b) <= max_supply cfg ->
+  Forall (tx_side cfg team_key (lb_height b)) (lb_txs b) -> SInv l ->
+  ctr_ok l (txs_ctr (lb_txs b) + 4) ->
+  lb_height b - 1 + unlock_time cfg < two64 ->
+  fst (spec_block cfg genesis_addr team_key l b) <> 0 ->
+  forall l1, apply_block cfg genesis_addr l b (lb_height b - 1) <> Ok l1.
+Proof. exact block_refused_by_rules_refused_by_code. Qed.
+Print Assumptions C02_block_refused_by_rules_refused_by_code.
+
+(* ---- chains: apply_chain against ledger_of_chain, from any ledger holding the scheduled supply of height h with the
+   invariant, and from the empty ledger (genesis block first) - the latter is what Check/C02.v evaluates on the
+   implementation's main chains.  [chain_ctr bs] = sum over the blocks of (txs_ctr + 4). ---- *)
+Theorem C02_chain_refines : forall cfg genesis_addr team_key,
+  cfg_ok_fee cfg = true -> cfg_ok_emission cfg = true ->
+  forall bs l (h : nat) l',
+  total_bal l = sum_rewards cfg h -> heights_from h bs ->
+  Forall (fun b => Forall (tx_side cfg team_key (lb_height b)) (lb_txs b)) bs -> SInv l ->
+  ctr_ok l (chain_ctr bs) ->
+  Forall (fun b => lb_height b - 1 + unlock_time cfg < two64) bs ->
+  apply_chain cfg genesis_addr l bs = Ok l' ->
+  let '(c, ls) := ledger_of_chain cfg genesis_addr team_key l bs in
+  c = 0 /\ same_accounts l' ls /\ dlgs l' = dlgs ls /\ staked l' = staked ls.
+Proof. exact chain_refines_same. Qed.
+Print Assumptions C02_chain_refines.
+
+Theorem C02_chain_refines_from_genesis : forall cfg genesis_addr team_key,
+  cfg_ok_fee cfg = true -> cfg_ok_emission cfg = true ->
+  forall b0 bs l',
+  lb_height b0 = 0 -> heights_from 0 bs ->
+  Forall (fun b => Forall (tx_side cfg team_key (lb_height b)) (lb_txs b)) (b0 :: bs) ->
+  chain_ctr (b0 :: bs) < two64 ->
+  Forall (fun b => lb_height b - 1 + unlock_time cfg < two64) (b0 :: bs) ->
+  apply_chain cfg genesis_addr ledger0 (b0 :: bs) = Ok l' ->
+  let '(c, ls) := ledger_of_chain cfg genesis_addr team_key ledger0 (b0 :: bs) in
+  c = 0 /\ same_accounts l' ls /\ dlgs l' = dlgs ls /\ staked l' = staked ls.
+Proof. exact chain_refines_from_genesis. Qed.
+Print Assumptions C02_chain_refines_from_genesis.
 
 (* WITNESS (main-net constants): the hypothesis on the version byte cannot be dropped.  A transaction object with a
    Stake payload under version byte 1 passes Prevalidate and is applied by ApplyTxToState as a bare debit/credit
